@@ -1,6 +1,7 @@
 package storex
 
 import (
+	"context"
 	"fmt"
 	"math"
 	"sort"
@@ -29,6 +30,10 @@ type c08Case struct {
 	// RejectFrom: the OnDelete handler rejects every height >= RejectFrom during the call
 	// (a part-way failure that can hit several parallel workers at once); 0 = off.
 	RejectFrom uint64 `json:"reject_from,omitempty"`
+	// Queued: this many headers above the head are appended right before the DeleteRange call, without
+	// waiting for them (slow datastore): they still sit in the write queue when DeleteRange starts.
+	// The pre-state passed to c08Run is the one AFTER that append has settled.
+	Queued int `json:"queued_append,omitempty"`
 }
 
 // collectStates explores the store alphabet and returns one shortest history per distinct state.
@@ -129,6 +134,9 @@ func c08Run(t *testing.T, run *vk.Run, c c08Case, pre *preState) {
 	if c.Parallel {
 		feat += ",parallel=true"
 	}
+	if c.Queued > 0 {
+		feat += ",queued-append"
+	}
 	viol := func(clause, format string, a ...any) {
 		run.Violate("C08/"+clause+"/"+feat, c, "%s [%d,%d) after [%s] on %v (head %d tail %d pending %v) cont [%s]: %s",
 			"DeleteRange", c.From, c.To, histString(c.Hist), c.Cfg, pre.head, pre.tail, pre.pending, histString(c.Cont), fmt.Sprintf(format, a...))
@@ -148,7 +156,29 @@ func c08Run(t *testing.T, run *vk.Run, c c08Case, pre *preState) {
 			w.settle()
 			w.DS.FailWrites(w.DS.Writes()+c.FailWrite, 1)
 		}
-		err, pan := w.Apply(Op{K: "delete", From: c.From, To: c.To})
+		if c.Queued > 0 {
+			w.settle()
+			h0, _ := w.headTail()
+			w.DS.OnOp = func(kind string) {
+				if kind == "commit" || kind == "put" || kind == "delete" {
+					time.Sleep(time.Millisecond)
+				}
+			}
+			if aerr := w.St.Append(context.Background(), w.C.Slice(h0+1, h0+uint64(c.Queued))...); aerr != nil {
+				viol("queued-append-failed", "Append: %v", aerr)
+				return
+			}
+			for h := h0 + 1; h <= h0+uint64(c.Queued); h++ {
+				w.M[h] = true
+			}
+			w.ExpectNonEmpty = true
+		}
+		err, pan := w.Apply(Op{K: "delete", From: c.From, To: c.To, NS: c.Queued > 0})
+		w.DS.OnOp = nil
+		if c.Queued > 0 && err == nil && pan == "" && kind == "whole" {
+			// Apply judged "whole chain" against the head before the queued append was drained
+			w.ExpectNonEmpty = false
+		}
 		w.DS.FailWrites(-1, 0)
 		if pan != "" {
 			viol("panic", "panicked: %s", pan)
@@ -384,7 +414,7 @@ func c08Configs(run *vk.Run) []Cfg {
 func TestC08(t *testing.T) {
 	run := vk.NewRun("C08", "model_checking")
 	defer run.Finish()
-	run.SetRule("for every distinct store state reached by BFS over the store alphabet (depth d), every (from,to) pair over relative positions {0,tail-1,tail,tail+1,mid,head-1,head,head+1,head+2,2^64-1}, with and without an OnDelete handler that reads the header, every continuation from a fixed list (restart, appends above the old head, re-append, readall+restart), and for accepted ranges every single failing datastore write position; distinct = (range kind, pending/flushed, flush regime, flavour, handler, continuation, fault, outcome)")
+	run.SetRule("for every distinct store state reached by BFS over the store alphabet (depth d), every (from,to) pair over relative positions {0,tail-1,tail,tail+1,mid,head-1,head,head+1,head+2,2^64-1}, with and without an OnDelete handler that reads the header, every continuation from a fixed list (restart, appends above the old head, re-append, readall+restart), for accepted ranges every single failing datastore write position, and every pair again with one more header appended right before the call and still in the write queue (slow datastore); distinct = (range kind, pending/flushed, flush regime, flavour, handler, continuation, fault, outcome)")
 	run.Assume("reference: acceptance from observed Head/Tail; model = set of live heights; C04 invariants with dead-header checks")
 
 	var rc c08Case
@@ -405,7 +435,7 @@ func TestC08(t *testing.T) {
 	depth := vk.Pick(run, 2, 3)
 	run.Set("state_depth", depth)
 	a := alphaOpts{MaxSlice: 3, Deletes: true, Restart: true, ReadAll: true}
-	dl := vk.NewDeadline(vk.Pick(run, 10*time.Minute, 120*time.Minute))
+	dl := vk.NewDeadline(vk.Pick(run, 10*time.Minute, 45*time.Minute))
 	states, cases := 0, 0
 	for _, cfg := range c08Configs(run) {
 		cfg := cfg
@@ -470,6 +500,18 @@ func TestC08(t *testing.T) {
 							fc := base
 							fc.FailWrite = j
 							c08Run(t, run, fc, pre)
+							run.AddEval(1)
+						}
+					}
+				}
+				// queued append: the same ranges (relative to the head after the append) while the
+				// appended header is still in the write queue
+				if !it.reading && pre.head != 0 && pre.head+1 <= uint64(cfg.N) {
+					h2 := append(append([]Op(nil), it.hist...), Op{K: "append", Lo: pre.head + 1, Hi: pre.head + 1})
+					if pre2 := c08Pre(t, run, cfg, h2, false); pre2 != nil {
+						for _, p := range deletePairs(pre2.head, pre2.tail) {
+							qc := c08Case{Cfg: cfg, Hist: it.hist, From: p[0], To: p[1], FailWrite: -1, Queued: 1}
+							c08Run(t, run, qc, pre2)
 							run.AddEval(1)
 						}
 					}
